@@ -159,6 +159,10 @@ class Gen:
                                 (1, {"v": "str", "s": "x"}),
                                 (1, {"v": "none"}), (1, {"v": "int", "i": 0}),
                                 (1, {"v": "list", "n": 0})])
+        if role in ("cond", "omit") and self.o.get("badvalues") and \
+                ch.coin(0.1):
+            return {"v": "badbool",
+                    "cls": ch.pick(UNCAUGHT_NAMES + CAUGHT_NAMES)}
         if role == "repeat" and self.o.get("badvalues") and ch.coin(0.12):
             return {"v": ch.pick(["baditer", "badseq"]), "n": ch.choose(3),
                     "cls": ch.pick(UNCAUGHT_NAMES + CAUGHT_NAMES)}
